@@ -115,6 +115,33 @@ CHECKS['C15'] = dict(
     technique='machine-checked refutations and partial proof (Coq) + differential correspondence with a direct oracle',
 )
 
+CHECKS['C01'] = dict(
+    text=('Proof. The control skeletons of ThreadWorker._run, ProcessWorker._run and the persistent _cleanup methods are regenerated on every run '
+          '(try/except/finally nesting, handler classes, one effect label per statement); Child/Sem.v executes them with asynchronous exceptions '
+          'and kills landing at any statement boundary and models the parent-side decoding. The theorem covers every kind in {thread, process} x '
+          '{one-shot, persistent}, every target behaviour, rebuildable or not, and ANY pair of events at ANY boundary (finite domain, recomputed by '
+          'vm_compute on the regenerated skeletons): a dead worker is never undefined, the accessors never raise, has_error False only if the target '
+          'returned, the reported exception is one the target raised or WorkerTerminatedError or None. Every single landing point is replayed on '
+          'the real workers (sys.settrace in-process for thread kinds, sitecustomize tracer in spawned children for process kinds, incl. SIGKILL '
+          'and SIGKILL mid-send) and compared with the model; accessors are read three times.'),
+    design='5/C01',
+    note=('Assumes asynchronous exceptions land at statement boundaries or inside an interruptible target, and FIFO pipes with at most one truncated '
+          'trailing message. Remote kinds are covered by their decoding fix and C02, not by this model. Pairs of landing points and opcode-level '
+          'points are in the theorem only. ' + COMMON_NOTE),
+    technique='machine-checked finite-domain proof (Coq, vm_compute) over skeletons regenerated from the source + line-level injection correspondence',
+)
+CHECKS['C03'] = dict(
+    text=('Proof over the same regenerated skeletons with ONE graceful terminate: for every boundary from construction-complete on, a target that '
+          'runs interruptible code and propagates ends with WorkerTerminatedError and its finally/_cleanup ran (or the boundary is never reached); a '
+          'target that ended on its own yields its own outcome or WorkerTerminatedError, except on the boundaries of the failure-recording handler '
+          '(refuted there: known finding). Every landing point is replayed on real thread and process workers; the real terminate() is exercised on '
+          'running targets inside try/finally and on idle persistent workers for thread, process and remote kinds.'),
+    design='5/C03',
+    note=('Known finding C03-handler-window. Time-to-death is exercised (terminate(timeout=10) must return True), not proved. The terminate protocol '
+          'itself (control pipe, control thread, three-hop remote chain) is modelled in C04, here the injection is placed by a tracer. ' + COMMON_NOTE),
+    technique='machine-checked finite-domain proof (Coq, vm_compute) over skeletons regenerated from the source + line-level injection correspondence',
+)
+
 NOT_YET = {}
 
 
